@@ -280,10 +280,37 @@ fn build_batch(specs: Vec<GrammarSpec>, out: &Path, crates: usize, plan: &str, s
                 let code = if spec.flags.via_macro {
                     // how the invoking source spells the grammar literal: raw string, cooked string with escapes, cooked string
                     // with backslash-newline continuations (Rust drops the line break AND the indentation that follows)
-                    match h % 3 {
+                    match h % 5 {
+                        // not the macro at all but the documented build-script route: `Compile` writes header + prefix + code
+                        // to a file and the user's crate pulls it in with include!() inside a module
+                        4 => {
+                            let inc_dir = out.join("inc");
+                            std::fs::create_dir_all(&inc_dir).unwrap();
+                            let src = inc_dir.join(format!("{}.ebnf", spec.id));
+                            let dest = inc_dir.join(format!("{}.rs", spec.id));
+                            let _ = std::fs::remove_file(&dest);
+                            std::fs::write(&src, &text).unwrap();
+                            let r = verif_core::util::catch(|| {
+                                peginator_codegen::Compile::file(&src)
+                                    .destination(&dest)
+                                    .prefix("#[allow(unused_imports)]\nuse std::fmt as _vb_prefix_fmt;".to_string())
+                                    .derives(spec.cfg.derives.clone())
+                                    .run()
+                            });
+                            match r {
+                                Ok(Ok(())) => format!("include!({:?});\n", dest.to_string_lossy()),
+                                _ => format!("compile_error!(\"the build-script helper failed on a grammar the library accepts\");\n"),
+                            }
+                        }
                         0 => format!("peginator_macro::peginate!(r################\"{}\"################);\n", text),
                         1 => format!("peginator_macro::peginate!({:?});\n", text),
-                        _ => format!("peginator_macro::peginate!({});\n", cooked_with_continuations(&text, h)),
+                        2 => format!("peginator_macro::peginate!({});\n", cooked_with_continuations(&text, h)),
+                        // the literal forwarded by a macro_rules! wrapper (it arrives inside an invisible group), with a
+                        // trailing comma
+                        _ => format!(
+                            "macro_rules! vb_forward__ {{ ($g:literal) => {{ peginator_macro::peginate!($g); }}; }}\nvb_forward__!(r################\"{}\"################);\n",
+                            text
+                        ),
                     }
                 } else {
                     code
@@ -370,7 +397,8 @@ fn build_batch(specs: Vec<GrammarSpec>, out: &Path, crates: usize, plan: &str, s
         }
     }
     for p in existing {
-        if !keep.contains(&p) {
+        // (inc/ holds the files written by the build-script helper for the include!() route)
+        if !keep.contains(&p) && p.file_name().map_or(true, |n| n != "inc") {
             let _ = std::fs::remove_dir_all(p);
         }
     }
